@@ -155,6 +155,9 @@ def run(tier: str, seed: int) -> int:
         cases.append({"id": base + i, "kind": kind, "pydoc": d})
     obs = drive("harness.props.c06", "drive_case", cases)
     verdicts = chk.judge("Judge_C06", obs)
+    from .. import corrupt as _corrupt
+
+    chk.binding_selftest("Judge_C06", obs, verdicts, _corrupt.c06)
     raw = {c["id"]: c for c in cases}
 
     def pretty(o):
